@@ -32,3 +32,54 @@ Print Assumptions branches_and_calls_cost_v1.
 Theorem taken_branch_cost : (forall a, 1 <= CostV0.cfg_branch a) /\ (forall a, 1 <= CostV1.cfg_branch a).
 Proof. exact (conj v0_branch v1_branch). Qed.
 Print Assumptions taken_branch_cost.
+
+(** ** memgrow_announced: in every function body of [inject m] each [memory.grow] is immediately
+    preceded by the call of import 0 ([account_memory], which returns its argument: [SemTrace.mhost]),
+    so the host is told the number of pages before the memory grows. *)
+From CB Require Import Wasm.Sem Wasm.Meter Wasm.SemTrace Wasm.MeterRun Wasm.MeterProofs Wasm.SemTraceProofs.
+
+Theorem memgrow_announced : forall cfg m m',
+  inject cfg m = Some m' -> Forall (fun f => Announced (f_body f)) (m_funcs m').
+Proof. exact memgrow_announced_module. Qed.
+Print Assumptions memgrow_announced.
+
+Example announced_shape :
+  Announced [Basic (BConst T_i32 1%Z); Basic (BCall 0); Basic BMemoryGrow; Basic BDrop]
+  /\ ~ Announced [Basic (BConst T_i32 1%Z); Basic BMemoryGrow].
+Proof.
+  split.
+  - apply A_basic; [discriminate|]. apply A_grow. apply A_basic; [discriminate|]. constructor.
+  - intro H. inversion H; subst. inversion H3; subst. congruence.
+Qed.
+Print Assumptions announced_shape.
+
+(** ** budget_monotone (InterpreterEnergy model [MeterRun.pay]: tick_energy / charge_memory_alloc
+    zero the remaining energy on failure): a run that does not run out of energy with budget [B]
+    has, with any larger budget [B'], the same charges paid and remaining energy larger by exactly
+    [B' - B]; out of energy happens exactly when the sum of the charges exceeds the budget. *)
+Theorem budget_monotone : forall cs B B' rem,
+  pay B cs = (true, rem) -> B <= B' -> pay B' cs = (true, rem + (B' - B)).
+Proof. exact budget_monotone_pay. Qed.
+Print Assumptions budget_monotone.
+
+Theorem out_of_energy_exactly_when_need_exceeds_budget : forall cs B,
+  fst (pay B cs) = false <-> B < sum_charges cs.
+Proof. exact out_of_energy_iff. Qed.
+Print Assumptions out_of_energy_exactly_when_need_exceeds_budget.
+
+Theorem budget_accounting : forall cs B,
+  (sum_charges cs <= B -> pay B cs = (true, B - sum_charges cs)) /\
+  (B < sum_charges cs -> pay B cs = (false, 0)).
+Proof. exact pay_spec. Qed.
+Print Assumptions budget_accounting.
+
+Example budget_nonvacuous : pay 10 [3; 4] = (true, 3) /\ pay 6 [3; 4] = (false, 0).
+Proof. split; reflexivity. Qed.
+Print Assumptions budget_nonvacuous.
+
+(** ** the instrumented interpreter IS the reference interpreter (same fuel, same outcome):
+    every statement about [SemTrace.trun] is a statement about [Sem.run] of the erased module. *)
+Theorem sem_trace_erase : forall host cap m afs, m_funcs m = map erase_func afs ->
+  forall fuel fi args, snd (trun host cap m afs fuel fi args) = run host cap m fuel fi args.
+Proof. exact trun_erase. Qed.
+Print Assumptions sem_trace_erase.
